@@ -19,8 +19,11 @@ def suite_c02(r, n):
     add_defaults_struct(p0)
     jobs, meta = [], []
     per = max(1, n // nprogs)
-    # the fixed MATRIX programs run first in every run (see matrix_progs below)
-    mprogs = matrix_progs()
+    # the fixed MATRIX programs (see matrix_progs below) run first in every check: bin/check splits a suite
+    # into parallel jobs with seeds seed*1000+i — the matrix belongs to job 0 (seed divisible by 1000, which
+    # a replay of one of its failures reruns; or the explicit flag -matrix of props_d suite_args_first)
+    import sys as _sys
+    mprogs = matrix_progs() if (RERUN.get("seed", 0) % 1000 == 0 or "-matrix" in _sys.argv) else []
     for p in mprogs: matrix_jobs(r, p, jobs, meta)
     for p in progs:
         keys = list(p.structs)
